@@ -46,7 +46,10 @@ def programs(ctx, n):
     progs += [s for _i, s in scopegen.random_programs(ctx.rng, max(10, n // 4))]
     progs.append('T = TypeVar("T")\ndef generic[T, *Ts, **P](argument_value: T) -> T:\n    local_value = argument_value\n    return local_value\n'
                  '__all__ = ["generic", "exported_value"]\nexported_value = 1\nhidden_value = exported_value\nprint(hidden_value, hidden_value)\n')
-    return progs
+    interface = ['__all__ = ["exported_value", "hidden_value"]\nexported_value = 1\nhidden_value = exported_value\nother_name = hidden_value + hidden_value\nprint(other_name, other_name)\n',
+                 '__all__ = ["public_function"]\ndef public_function(argument_value):\n    local_value = argument_value\n    return local_value, local_value\ndef helper_function():\n    return public_function(1)\n',
+                 '__all__ = []\n__all__ += ["late_export"]\nlate_export = 1\nhidden_value = late_export\nprint(hidden_value, hidden_value)\n']
+    return progs + interface * max(1, n // 12)
 
 
 def tie_programs():
@@ -56,6 +59,9 @@ def tie_programs():
     out = []
     out.append('def update_all():\n    global %s\n' % ', '.join(names) + ''.join('    %s = 1\n' % n for n in names) + 'update_all()\nprint(%s)\n' % ', '.join(names))
     out.append('def update_all():\n    global %s\n    global %s\n' % (', '.join(names[:4]), ', '.join(names[4:])) + ''.join('    %s = %s\n' % (n, m) for n, m in zip(names, names[1:] + names[:1])))
+    out.append('def update_all():\n    global %s\n' % ', '.join(names + names[:3]) + ''.join('    %s = 1\n' % n for n in names))
+    out.append('def outer_function():\n' + ''.join('    %s = 0\n' % n for n in names[:4]) + '    def inner_function():\n        nonlocal %s\n' % ', '.join(names[:4] + names[:2]) +
+               ''.join('        %s += 1\n' % n for n in names[:4]) + '    return inner_function\n')
     out.append('def outer_function():\n' + ''.join('    %s = 0\n' % n for n in names) + '    def inner_function():\n        nonlocal %s\n' % ', '.join(names) +
                ''.join('        %s += 1\n' % n for n in names) + '    return inner_function\n')
     out.append('from os import %s\nprint(%s)\n' % (', '.join('%s as %s' % (m, n) for m, n in zip(['path', 'sep', 'getcwd', 'name', 'linesep', 'curdir', 'pardir', 'extsep'], names)), ', '.join(names)))
@@ -167,7 +173,20 @@ def histories(ctx, progs, n):
 
 
 def threads(ctx, progs, rounds):
+    import sys
     nthreads = 8
+    # modules with many literals worth hoisting and many names: the longest stretches of per-call state
+    heavy = [p for p in tie_programs() if 'literal number' in p or 'key ' in p] + [
+        'def function_%d():\n    return [%s]\n' % (k, ', '.join("'text number %d of %d', 'text number %d of %d'" % (i, k, i, k) for i in range(12))) for k in range(4)]
+    old_interval = sys.getswitchinterval()
+    sys.setswitchinterval(1e-5)
+    try:
+        return _threads(ctx, progs + heavy * 3, rounds, nthreads)
+    finally:
+        sys.setswitchinterval(old_interval)
+
+
+def _threads(ctx, progs, rounds, nthreads):
     for r in range(rounds):
         chosen = [ctx.rng.choice(progs) for _ in range(nthreads)]
         kws = [OPTSETS[(r + i) % len(OPTSETS)] for i in range(nthreads)]
@@ -179,11 +198,15 @@ def threads(ctx, progs, rounds):
             barrier.wait()
             for _ in range(3):
                 got[i] = fresh(chosen[i], kws[i])
-        ts = [threading.Thread(target=work, args=(i,)) for i in range(nthreads)]
+        ts = [threading.Thread(target=work, args=(i,), daemon=True) for i in range(nthreads)]
         for t in ts:
             t.start()
         for t in ts:
-            t.join()
+            t.join(30)
+        if any(t.is_alive() for t in ts):
+            ctx.add_violation({'input': {'sources': chosen, 'thread': -1}, 'what': 'concurrent minify() calls did not finish within 30 s (single-threaded calls take milliseconds)',
+                               'found_by': 'threads', 'oracle': 'threads', 'shapes': []})
+            return
         ctx.count(nthreads)
         for i in range(nthreads):
             if got[i] != expected[i]:
